@@ -64,6 +64,10 @@ DECLS = [
     ('d2_len', 2, None, ['len3'], None),
     ('d_double', 1, 'double', ['pivot_range'], None),
     ('d_raise', 1, None, ['rows_raise13'], None),
+    # names starting with 't': the transform is declared BEFORE the dimensions
+    ('td_double', 1, 'double', ['pivot_range'], None),
+    ('td_round', 1, 'round1', ['pivot_range'], None),
+    ('d_round', 1, 'round1', ['pivot_range'], None),
 ]
 
 
@@ -124,14 +128,23 @@ def build_measurement(decl):
   H = pm.htf()
   name, dims, transform, vals, cond = decl
   m = H.Measurement(name)
+  transform_first = name.startswith('t')
+
+  def declare_transform(m):
+    if transform == 'round1':
+      return m.with_precision(1)
+    if transform:
+      return m.with_transform(make_transform(transform))
+    return m
+
+  if transform_first:
+    m = declare_transform(m)
   if dims == 1:
     m = m.with_dimensions('x')
   elif dims == 2:
     m = m.with_dimensions('x', 'y')
-  if transform == 'round1':
-    m = m.with_precision(1)
-  elif transform:
-    m = m.with_transform(make_transform(transform))
+  if not transform_first:
+    m = declare_transform(m)
   for v in vals:
     m = m.with_validator(make_validator(v))
   if cond:
